@@ -165,13 +165,16 @@ func Catch(f func()) (pi *PanicInfo) {
 // Reraise marks harness panics that Catch must not swallow.
 type Reraise interface{ HarnessPanic() }
 
+// DescribePanic must be called from a deferred function while panicking.
+func DescribePanic(r interface{}) *PanicInfo { return describePanic(r) }
+
 func describePanic(r interface{}) *PanicInfo {
 	pi := &PanicInfo{Value: fmt.Sprint(r)}
 	if len(pi.Value) > 200 {
 		pi.Value = pi.Value[:200]
 	}
 	pcs := make([]uintptr, 64)
-	n := runtime.Callers(3, pcs)
+	n := runtime.Callers(2, pcs)
 	frames := runtime.CallersFrames(pcs[:n])
 	var sb strings.Builder
 	seenPanic := false
